@@ -206,7 +206,9 @@ def validate(traces, nbatch=None):
     """TLC validates traces against XoAlloc (contract). returns list of (f04, f12) per trace"""
     if not traces:
         return [], dict(generated=0, distinct=0)
-    nbatch = nbatch or min(C.NCPU, max(1, len(traces) // 200))
+    # batches bounded by the amount of JSON a TLC process has to parse (walks of 150 steps carry their live lists): at most
+    # ~600 events per batch file of a few MB, never fewer batches than cores
+    nbatch = nbatch or max(min(C.NCPU, max(1, len(traces) // 200)), (sum(len(t["ev"]) for t in traces) + 19999) // 20000)
     size = (len(traces) + nbatch - 1) // nbatch
     batches = [traces[i:i + size] for i in range(0, len(traces), size)]
     verdicts = [None] * len(traces)
